@@ -61,7 +61,7 @@ static std::string run_axis(const std::string& enc, size_t n, const slice_t& sl)
 
 // ct: slice parts that are compile-time constants (integral_constant); only non-negative values compile
 // (`(unsigned_step_t)-step_` rejects a negative constant step).  A/B = -1 encodes None, C = 0 encodes a 2-part slice.
-template <int V> static auto ct_part() { if constexpr (V < 0) return nm::None; else return meta::ct_v<V>; }
+template <int V> static auto ct_part() { if constexpr (V < 0) return nm::None; else return meta::integral_constant<size_t,(size_t)V>{}; }   // the type of the `_ct` literals
 template <int A, int B, int C>
 static std::string run_ct(size_t n) {
     namespace ix = nm::index;
